@@ -35,6 +35,8 @@
         objects Protected) terminates and keeps every used object in place with the same references.
       - C02_register_upvalue_after_copylast: ap_assumed of RegisterUpvalue (the closure it popped) is rooted when
         the instruction before was CopyLast of that closure, which is what the compiler always emits.
+      - C02_alloc_points_match_step: for the allocating opcodes that are not native calls, when the instruction of
+        Vm.v completes the heap has grown by exactly the number of object allocations (AObject points) listed for it.
       ap_assumed is non-empty only for (a) RegisterUpvalue: the popped closure - on hand-written bytecode without
       the CopyLast it is NOT rooted and a collection at init_upvalue frees it before c.upvalues.push (witness:
       VmAllocPointsWitness.alloc_gap_register_upvalue, program VmUpvalueSem.dead_slot_program; vm.rs documents
@@ -178,7 +180,7 @@ Proof. exact (conj wit_state_closed (conj wit_collection (conj wit_boundary wit_
 (* ------------------------------------------------------------------ *)
 (* collections in the middle of an instruction (allocation points)     *)
 (* ------------------------------------------------------------------ *)
-From Cao Require Import VmAllocPoints VmAllocPointsProofs VmAllocPointsWitness.
+From Cao Require Import VmAllocPoints VmAllocPointsProofs VmAllocPointsWitness VmAllocPointsStep.
 
 Theorem C02_alloc_point_temporaries_rooted :
   forall F P ip0 s p, state_closed s -> In p (alloc_points F P ip0 s) ->
@@ -215,6 +217,14 @@ Theorem C02_register_upvalue_after_copylast :
   forall a, In a (ap_assumed p) -> reach (vm_abs F (ap_state p)) (vm_roots (ap_state p) ++ ap_guards p) a.
 Proof. exact register_after_copylast. Qed.
 Print Assumptions C02_register_upvalue_after_copylast.
+
+Theorem C02_alloc_points_match_step :
+  forall F P bld reenter ip0 s ip' s',
+  In (nth (N.to_nat ip0) (p_code P) 255%N) [8; 31; 33; 37; 38; 39; 40; 42; 45]%N ->
+  step F bld P reenter ip0 s = SNext ip' s' ->
+  length (st_heap s') = length (st_heap s) + n_objects (alloc_points F P ip0 s).
+Proof. exact VmAllocPointsStep.alloc_points_match_step. Qed.
+Print Assumptions C02_alloc_points_match_step.
 
 (* non-vacuity: closed non-trivial states whose next instruction has allocation points (SetProperty with a fresh key;
    CopyLast then RegisterUpvalue next to an open upvalue; NthRow with its six allocations and growing guards), the
